@@ -100,6 +100,25 @@ func (m *Module) indexDataDefinition(def Definition) error {
 	return nil
 }
 
+// reindexDataDefinitions rebuilds the index of children by name from the children, and the
+// members of the cases of their choices, as they are now
+func (m *Module) reindexDataDefinitions() error {
+	for key := range m.dataDefsIndex {
+		delete(m.dataDefsIndex, key)
+	}
+	for _, d := range m.dataDefs {
+		if c, isChoice := d.(*Choice); isChoice {
+			if err := m.indexChoiceDefinitions(c); err != nil {
+				return err
+			}
+		}
+		if err := m.indexDataDefinition(d); err != nil {
+			return err
+		}
+	}
+	return nil
+}
+
 func (m *Module) popDataDefinitions() []Definition {
 	orig := m.dataDefs
 	m.dataDefs = make([]Definition, 0, len(orig))
@@ -577,6 +596,25 @@ func (m *ChoiceCase) indexDataDefinition(def Definition) error {
 	return nil
 }
 
+// reindexDataDefinitions rebuilds the index of children by name from the children, and the
+// members of the cases of their choices, as they are now
+func (m *ChoiceCase) reindexDataDefinitions() error {
+	for key := range m.dataDefsIndex {
+		delete(m.dataDefsIndex, key)
+	}
+	for _, d := range m.dataDefs {
+		if c, isChoice := d.(*Choice); isChoice {
+			if err := m.indexChoiceDefinitions(c); err != nil {
+				return err
+			}
+		}
+		if err := m.indexDataDefinition(d); err != nil {
+			return err
+		}
+	}
+	return nil
+}
+
 func (m *ChoiceCase) popDataDefinitions() []Definition {
 	orig := m.dataDefs
 	m.dataDefs = make([]Definition, 0, len(orig))
@@ -790,6 +828,25 @@ func (m *Container) indexDataDefinition(def Definition) error {
 		return fmt.Errorf("conflict adding add %s to %s", def.Ident(), m.Ident())
 	}	
 	m.dataDefsIndex[def.Ident()] = def
+	return nil
+}
+
+// reindexDataDefinitions rebuilds the index of children by name from the children, and the
+// members of the cases of their choices, as they are now
+func (m *Container) reindexDataDefinitions() error {
+	for key := range m.dataDefsIndex {
+		delete(m.dataDefsIndex, key)
+	}
+	for _, d := range m.dataDefs {
+		if c, isChoice := d.(*Choice); isChoice {
+			if err := m.indexChoiceDefinitions(c); err != nil {
+				return err
+			}
+		}
+		if err := m.indexDataDefinition(d); err != nil {
+			return err
+		}
+	}
 	return nil
 }
 
@@ -1098,6 +1155,25 @@ func (m *List) indexDataDefinition(def Definition) error {
 		return fmt.Errorf("conflict adding add %s to %s", def.Ident(), m.Ident())
 	}	
 	m.dataDefsIndex[def.Ident()] = def
+	return nil
+}
+
+// reindexDataDefinitions rebuilds the index of children by name from the children, and the
+// members of the cases of their choices, as they are now
+func (m *List) reindexDataDefinitions() error {
+	for key := range m.dataDefsIndex {
+		delete(m.dataDefsIndex, key)
+	}
+	for _, d := range m.dataDefs {
+		if c, isChoice := d.(*Choice); isChoice {
+			if err := m.indexChoiceDefinitions(c); err != nil {
+				return err
+			}
+		}
+		if err := m.indexDataDefinition(d); err != nil {
+			return err
+		}
+	}
 	return nil
 }
 
@@ -1998,6 +2074,25 @@ func (m *Grouping) indexDataDefinition(def Definition) error {
 	return nil
 }
 
+// reindexDataDefinitions rebuilds the index of children by name from the children, and the
+// members of the cases of their choices, as they are now
+func (m *Grouping) reindexDataDefinitions() error {
+	for key := range m.dataDefsIndex {
+		delete(m.dataDefsIndex, key)
+	}
+	for _, d := range m.dataDefs {
+		if c, isChoice := d.(*Choice); isChoice {
+			if err := m.indexChoiceDefinitions(c); err != nil {
+				return err
+			}
+		}
+		if err := m.indexDataDefinition(d); err != nil {
+			return err
+		}
+	}
+	return nil
+}
+
 func (m *Grouping) popDataDefinitions() []Definition {
 	orig := m.dataDefs
 	m.dataDefs = make([]Definition, 0, len(orig))
@@ -2481,6 +2576,25 @@ func (m *RpcInput) indexDataDefinition(def Definition) error {
 	return nil
 }
 
+// reindexDataDefinitions rebuilds the index of children by name from the children, and the
+// members of the cases of their choices, as they are now
+func (m *RpcInput) reindexDataDefinitions() error {
+	for key := range m.dataDefsIndex {
+		delete(m.dataDefsIndex, key)
+	}
+	for _, d := range m.dataDefs {
+		if c, isChoice := d.(*Choice); isChoice {
+			if err := m.indexChoiceDefinitions(c); err != nil {
+				return err
+			}
+		}
+		if err := m.indexDataDefinition(d); err != nil {
+			return err
+		}
+	}
+	return nil
+}
+
 func (m *RpcInput) popDataDefinitions() []Definition {
 	orig := m.dataDefs
 	m.dataDefs = make([]Definition, 0, len(orig))
@@ -2668,6 +2782,25 @@ func (m *RpcOutput) indexDataDefinition(def Definition) error {
 		return fmt.Errorf("conflict adding add %s to %s", def.Ident(), m.Ident())
 	}	
 	m.dataDefsIndex[def.Ident()] = def
+	return nil
+}
+
+// reindexDataDefinitions rebuilds the index of children by name from the children, and the
+// members of the cases of their choices, as they are now
+func (m *RpcOutput) reindexDataDefinitions() error {
+	for key := range m.dataDefsIndex {
+		delete(m.dataDefsIndex, key)
+	}
+	for _, d := range m.dataDefs {
+		if c, isChoice := d.(*Choice); isChoice {
+			if err := m.indexChoiceDefinitions(c); err != nil {
+				return err
+			}
+		}
+		if err := m.indexDataDefinition(d); err != nil {
+			return err
+		}
+	}
 	return nil
 }
 
@@ -2981,6 +3114,25 @@ func (m *Notification) indexDataDefinition(def Definition) error {
 	return nil
 }
 
+// reindexDataDefinitions rebuilds the index of children by name from the children, and the
+// members of the cases of their choices, as they are now
+func (m *Notification) reindexDataDefinitions() error {
+	for key := range m.dataDefsIndex {
+		delete(m.dataDefsIndex, key)
+	}
+	for _, d := range m.dataDefs {
+		if c, isChoice := d.(*Choice); isChoice {
+			if err := m.indexChoiceDefinitions(c); err != nil {
+				return err
+			}
+		}
+		if err := m.indexDataDefinition(d); err != nil {
+			return err
+		}
+	}
+	return nil
+}
+
 func (m *Notification) popDataDefinitions() []Definition {
 	orig := m.dataDefs
 	m.dataDefs = make([]Definition, 0, len(orig))
@@ -3254,6 +3406,25 @@ func (m *Augment) indexDataDefinition(def Definition) error {
 		return fmt.Errorf("conflict adding add %s to %s", def.Ident(), m.Ident())
 	}	
 	m.dataDefsIndex[def.Ident()] = def
+	return nil
+}
+
+// reindexDataDefinitions rebuilds the index of children by name from the children, and the
+// members of the cases of their choices, as they are now
+func (m *Augment) reindexDataDefinitions() error {
+	for key := range m.dataDefsIndex {
+		delete(m.dataDefsIndex, key)
+	}
+	for _, d := range m.dataDefs {
+		if c, isChoice := d.(*Choice); isChoice {
+			if err := m.indexChoiceDefinitions(c); err != nil {
+				return err
+			}
+		}
+		if err := m.indexDataDefinition(d); err != nil {
+			return err
+		}
+	}
 	return nil
 }
 
@@ -4228,6 +4399,25 @@ func (m *Extension) indexDataDefinition(def Definition) error {
 		return fmt.Errorf("conflict adding add %s to %s", def.Ident(), m.Ident())
 	}	
 	m.dataDefsIndex[def.Ident()] = def
+	return nil
+}
+
+// reindexDataDefinitions rebuilds the index of children by name from the children, and the
+// members of the cases of their choices, as they are now
+func (m *Extension) reindexDataDefinitions() error {
+	for key := range m.dataDefsIndex {
+		delete(m.dataDefsIndex, key)
+	}
+	for _, d := range m.dataDefs {
+		if c, isChoice := d.(*Choice); isChoice {
+			if err := m.indexChoiceDefinitions(c); err != nil {
+				return err
+			}
+		}
+		if err := m.indexDataDefinition(d); err != nil {
+			return err
+		}
+	}
 	return nil
 }
 
